@@ -666,6 +666,7 @@ type AddDeviate struct {
 	configPtr      *bool
 	mandatoryPtr   *bool
 	maxElementsPtr *int
+	unboundedPtr   *bool
 	minElementsPtr *int
 	musts          []*Must
 	units          string
@@ -683,6 +684,7 @@ type ReplaceDeviate struct {
 	mandatoryPtr   *bool
 	minElementsPtr *int
 	maxElementsPtr *int
+	unboundedPtr   *bool
 	extensions     []*Extension
 }
 
